@@ -414,7 +414,7 @@ def signature(case, impl_obs, model_obs):
     if last in ("HANG", "MISSING", "SKIPPED"):
         return "%s:%s" % (case.engine, last)
     if case.engine.startswith("alx"):
-        return "%s:scenario-threads-allocated:%s:model:%s" % (case.engine, " ".join(impl_obs), " ".join(model_obs))
+        return "%s:scenario-threads-allocated-other-than-frames" % case.engine
     coro = case.engine[2] == '1'
     # The known finding: in coroutine mode the per-thread ready queue (std::deque) allocates one 512-byte node at every
     # 64th push_back and frees one at every 64th pop_front, exactly where the model's cursor says, and NOTHING else differs
@@ -432,9 +432,11 @@ def signature(case, impl_obs, model_obs):
     op = case.ops[i] if i < len(case.ops) else []
     a = _fields(impl_obs[i]) if i < len(impl_obs) else None
     b = _fields(model_obs[i]) if i < len(model_obs) else None
-    def costs(x):
-        return "fa=%d,ff=%d,oa=%d/%dB,of=%d/%dB" % tuple(x[3:9]) if x and len(x) >= 9 else str(x)
-    return "%s:op%s:impl[%s]:model[%s]" % (case.engine, op[0] if op else "?", costs(a), costs(b))
+    # coarse on purpose (one replay per engine / op kind / what is off), the replay file carries the numbers
+    what = "?"
+    if a and b and len(a) >= 9 and len(b) >= 9:
+        what = "frames" if a[3:5] != b[3:5] else ("other-allocations" if a[5:9] != b[5:9] else "behaviour")
+    return "%s:op%s:%s-differ-from-model" % (case.engine, op[0] if op else "?", what)
 
 
 def gen_xcell(seed, tier):
